@@ -479,4 +479,16 @@ impl Store {
     pub(super) fn verif_slab_len(&self) -> usize {
         self.slab.len()
     }
+
+    /// The records still allocated in the slab that are no longer linked from
+    /// the id map (verification statistics).
+    pub(super) fn verif_unlinked(&self) -> Vec<String> {
+        self.slab
+            .iter()
+            .filter(|(index, stream)| {
+                self.ids.get(&stream.id) != Some(&SlabIndex(*index as u32))
+            })
+            .map(|(_, stream)| stream.verif_json())
+            .collect()
+    }
 }
